@@ -387,6 +387,10 @@ func (s *Sess) genOp() *Op {
 		op.H = s.dirHandle()
 		op.Name = s.name()
 		op.Mode = r.PickInt([]int{0, 0, 0, 1, 1, 2})
+		if r.Intn(8) == 0 {
+			op.SetSize = true
+			op.Size = r.Pick(s.offsets())
+		}
 	case OpMkdir, OpMknod:
 		op.H = s.dirHandle()
 		op.Name = s.name()
